@@ -21,7 +21,8 @@ from interp import Interp, Struct, EnumV, Ref, Cell, UNIT, Unsupported, Infeasib
 SUMMARY_TEXT = [
     "VecDeque<Waker> / HashMap<StreamId, Waker> = a bag of waker tokens: push_back, insert, drain(..) (hands out every element and "
     "leaves the container empty), Iterator::for_each over the drained elements; [VecDeque<Waker>; 2] = two bags; Option<Waker>::take; "
-    "Waker::{wake, clone} = recorded / identity-preserving",
+    "Waker::{wake, clone} = recorded / identity-preserving; HashMap::remove(&id) = hands out and removes the entry whose key equals id "
+    "(stream ids are distinct concrete tokens), None when there is none",
     "synchrony Mutex::lock / MutexGuard deref(_mut), Rc deref by definition (one thread, lock held for the whole call)",
     "quinn-proto: Connection::{datagrams, streams} = handles; Datagrams::recv, Streams::{open, accept} = Some(value) | None by choice; "
     "is_handshaking / side / is_client / close = opaque; ConnectionError::clone = identity",
@@ -149,6 +150,15 @@ class ConnModel:
             bag(a[0]).items.append(Struct({0: Cell(a[1]), 1: Cell(a[2])}))
             return EnumV(0)
 
+        def s_remove(I, a, pth, c):
+            b = bag(a[0])
+            key = deref(a[1])
+            for k, x in enumerate(b.items):
+                if deref(x.f[0].v) == key:
+                    del b.items[k]
+                    return EnumV(1, [Cell(x.f[1].v)])
+            return EnumV(0)
+
         def s_lock(I, a, pth, c):
             return Struct({0: Cell(a[0])})          # guard { &Mutex }
 
@@ -239,6 +249,7 @@ class ConnModel:
             (r"^<&mut \[VecDeque<Waker>; 2\] as IntoIterator>::into_iter$", s_arr_iter),
             (r"^<std::slice::IterMut<'_, VecDeque<Waker>> as Iterator>::next$", s_arr_next),
             (r"^VecDeque::<Waker>::push_back$", s_push_back), (r"^HashMap::<StreamId, Waker(?:, \w+)?>::insert$", s_insert),
+            (r"^HashMap::<StreamId, Waker(?:, \w+)?>::remove::<StreamId>$", s_remove),
             (r"mutex_blocking::Mutex::<connection::ConnectionState>::lock$", s_lock),
             (r"mutex_blocking::MutexGuard<'_, connection::ConnectionState> as Deref(?:Mut)?>::deref(?:_mut)?$", s_guard_deref),
             (r"^<Rc<ConnectionInner> as Deref>::deref$", s_rc_deref),
@@ -454,6 +465,9 @@ class ConnModel:
                         "completes", z3.BoolVal(not closed)))
             obs.append(("Pending: the caller's waker is registered in `%s`, which terminate() drains" % container,
                         z3.BoolVal([(n, w) for (n, w) in held] == [(container, me)])))
+            keys = [deref(x.f[0].v) for x in st.f[self.idx(container)].v.items if isinstance(x, Struct)]
+            obs.append(("Pending: the waker is registered under the stream's own id (the worker wakes `%s` by the id quinn-proto names "
+                        "in its stream event)" % container, z3.BoolVal(keys == [("stream-id", 7)])))
         else:
             obs.append(("Ready: nothing is registered", z3.BoolVal(not held)))
             if closed and guard_first:
@@ -497,5 +511,24 @@ class ConnModel:
             return c[0], [Ref(Cell(stream)), Ref(Cell(cx)), z3.BoolVal(True), ("read-closure",)]
         return self._stream_poll(p, find, {3: Cell(z3.BoolVal(False)), 4: Cell(EnumV(0))}, "readable", guard_first=False)
 
-    CHECKS = ["terminate", "poll_recv_datagram", "poll_open_stream", "poll_accept_stream", "stream_stopped", "stream_received_reset",
+    def check_wake_stream(self, p):
+        """wake_stream(id, table): the worker's reaction to a per-stream event of quinn-proto (Readable / Writable / Finished / Stopped)"""
+        W, I = self.world(p)
+        fn = self.fns.get("connection::wake_stream") or self.fns.get("wake_stream")
+        if fn is None:
+            raise Unsupported("cannot locate connection.rs wake_stream")
+        ids = [3, 7, 9][:1 + p.choose(3, "table holds 1 / 2 / 3 streams' wakers")]
+        ws = {k: Wk("stream#%d" % k) for k in ids}
+        table = Bag([Struct({0: Cell(("stream-id", k)), 1: Cell(ws[k])}) for k in ids])
+        target = [3, 7, 9, 11][p.choose(4, "event names stream 3 / 7 / 9 / 11 (11: nobody waits)")]
+        I.run_to_end(I.call_fn(fn, [("stream-id", target), Ref(Cell(table))], p))
+        self.encoded |= I.called
+        left = [deref(x.f[0].v)[1] for x in table.items]
+        exp_woken = [ws[target]] if target in ws else []
+        return [("exactly the waker registered for the named stream is woken, once; nothing when nobody waits on it",
+                 z3.BoolVal(len(W.woken) == len(exp_woken) and all(a is b for a, b in zip(W.woken, exp_woken)))),
+                ("the woken waker leaves the table, every other stream's waker stays registered",
+                 z3.BoolVal(left == [k for k in ids if k != target]))]
+
+    CHECKS = ["wake_stream", "terminate", "poll_recv_datagram", "poll_open_stream", "poll_accept_stream", "stream_stopped", "stream_received_reset",
               "stream_write", "stream_read"]
